@@ -122,6 +122,7 @@ func hasS(a []string, x string) bool {
 type Options struct {
 	MaxSubs     int
 	MaxEntities int
+	NoRequires  bool // no @requires fields
 	// Allow re-enables layout classes excluded by default because they hit a recorded
 	// finding: "nested-entity-list" ([[E!]] fields), "split-iface-composite" (a composite
 	// interface field owned by different subgraphs for different implementers),
@@ -379,6 +380,10 @@ func Gen(t *rapid.T, o Options) *Layout {
 				continue
 			}
 			if rapid.IntRange(0, 3).Draw(t, "req") != 0 {
+				continue
+			}
+			if o.NoRequires {
+				m.feat["excluded:requires"] = true
 				continue
 			}
 			o := owner("reqown")
